@@ -154,9 +154,35 @@ VARIANTS = [
      "edits": [{"file": ANIM, "old": "        super().__init__(prim_spec, zero_median=False)\n",
                 "new": "        super().__init__(prim_spec, zero_median=False)\n        self._memo = {}\n"},
                {"file": ANIM, "old": "        return self._quantized_to_float(val, 0.0, self._get_upper_limit(ctx))\n",
-                "new": "        limit = self._get_upper_limit(ctx)\n"
-                       "        key = (val, limit)\n"
+                "new": "        key = (val, self._get_upper_limit(ctx))\n"
                        "        if key not in self._memo:\n"
-                       "            self._memo[key] = self._quantized_to_float(val, 0.0, limit)\n"
+                       "            self._memo[key] = self._quantized_to_float(val, 0.0, self._get_upper_limit(ctx))\n"
                        "        return self._memo[key]\n"}]},
+
+    # ---------------------------------------------------------------- round 3: vector forms
+    {"name": "R3 vector writer rounds components to millimetres", "file": SER, "expect": "C10.R3",
+     "old": "        for spec, val in zip(self._elem_specs, vals):\n            writer.write(spec, val, ctx=ctx)\n",
+     "new": "        for spec, val in zip(self._elem_specs, vals):\n            writer.write(spec, round(val, 3), ctx=ctx)\n"},
+    {"name": "R3 quantised vector override clamps components to half the range", "file": SER, "expect": "C10.R3",
+     "old": "class Vector3U16(QuantizedTupleCoord):\n    ELEM_SPEC = U16\n    NUM_ELEMS = 3\n    COORD_CLS = dtypes.Vector3\n",
+     "new": "class Vector3U16(QuantizedTupleCoord):\n    ELEM_SPEC = U16\n    NUM_ELEMS = 3\n    COORD_CLS = dtypes.Vector3\n\n"
+            "    def serialize(self, vals, writer, ctx):\n"
+            "        vals = [max(min(c, 1.0), -1.0) for c in self._vals_to_tuple(vals)]\n"
+            "        super().serialize(vals, writer, ctx)\n"},
+    {"name": "P R3 fixed point vector override clamps at the element's own bound", "file": SER, "expect": "silent",
+     "old": "            FixedPoint(self.ELEM_SPEC, int_bits, frac_bits, signed)\n            for _ in range(self.NUM_ELEMS)\n        )\n",
+     "new": "            FixedPoint(self.ELEM_SPEC, int_bits, frac_bits, signed)\n            for _ in range(self.NUM_ELEMS)\n        )\n"
+            "        self._component_cap = float(1 << int_bits)\n\n"
+            "    def serialize(self, vals, writer: BufferWriter, ctx):\n"
+            "        capped = tuple(min(c, self._component_cap) for c in self._vals_to_tuple(vals))\n"
+            "        super().serialize(capped, writer, ctx)\n"},
+    {"name": "P R3 tuple constructor through a range helper generator (keyword construction)", "file": SER, "expect": "silent",
+     "old": "            assert lower is not None and upper is not None\n            self._elem_specs = tuple(\n"
+            "                QuantizedFloat(self.ELEM_SPEC, lower, upper)\n                for _ in range(self.NUM_ELEMS)\n            )\n",
+     "new": "            assert lower is not None and upper is not None\n            self._elem_specs = tuple(\n"
+            "                QuantizedFloat(prim_spec=self.ELEM_SPEC, lower=rng[0], upper=rng[1])\n"
+            "                for rng in [(lower, upper)] * self.NUM_ELEMS\n            )\n"},
+    {"name": "R3 tuple constructor forces zero_median on every component", "file": SER, "expect": "C10.R3",
+     "old": "                QuantizedFloat(self.ELEM_SPEC, lower, upper)\n                for lower, upper in component_scales\n",
+     "new": "                QuantizedFloat(self.ELEM_SPEC, lower, upper, True)\n                for lower, upper in component_scales\n"},
 ]
